@@ -786,7 +786,16 @@ theorem tsd_types_resolves {opts : Opts} {api : Api} {out : TypesOut} (c : Ctx o
               rw [hh] at hr; exact hall _ ⟨rfl, by simp [hh]⟩ r hr
             · simp at hm
         · simp at hr
-      · simp only [Decl.refs, TExpr.refs, List.mem_append, List.mem_map] at hr
+      · by_cases hE : ((Option.map (tsdName (some u.q.ns)) u.parent).toList ++
+            List.map (fun t => ({ ns := none, name := variantName u t } : Ref)) u.tags).isEmpty = true
+        · -- a union without parent and tags: `never`
+          simp only [Decl.refs, hE, if_true, TExpr.refs, bare, List.mem_append] at hr
+          rcases hr with (hr | hr) | hr
+          · simp at hr
+          · simp at hr
+          · simp at hr; subst hr
+            exact resolve_builtin rfl (by decide)
+        simp only [Decl.refs, hE, Bool.false_eq_true, if_false, TExpr.refs, List.mem_append, List.mem_map] at hr
         rcases hr with (hr | hr) | hr | ⟨t, ht', rfl⟩
         · simp at hr
         · simp at hr
@@ -893,10 +902,8 @@ theorem jsStructDecl_name {api : Api} {file : String} {s : StructD} {d : Decl}
 
 theorem jsUnionDecl_name {api : Api} {file : String} {u : UnionD} {d : Decl}
     (h : jsUnionDecl api file u = .ok d) : d.name = (jsName u.q).name := by
-  simp only [jsUnionDecl] at h
-  split at h
-  · simp at h
-  · simp at h; subst h; rfl
+  simp only [jsUnionDecl, Except.ok.injEq] at h
+  subst h; rfl
 
 /-- every registered struct / union has a typedef in a complete js_types output -/
 theorem js_declared {opts : Opts} {api : Api} {ds : List Decl} (h : jsTypes opts api = .ok ds) {q : QName}
@@ -995,29 +1002,29 @@ theorem js_types_resolves {opts : Opts} {api : Api} {ds : List Decl} (wf : apiWF
           subst hr
           exact ⟨rfl, Or.inl (by decide)⟩
     | union u =>
-      simp only [jsUnionDecl] at hEq
-      split at hEq
-      · simp at hEq
-      · simp at hEq; subst hEq
-        simp only [Decl.refs, List.mem_append, List.mem_flatMap, List.mem_filterMap, List.mem_cons,
-          List.mem_nil_iff, or_false] at hr
-        rcases hr with (hr | ⟨m, hm, hr⟩) | hr
-        · simp at hr
-        · rcases hm with ⟨t, ht, hm⟩ | rfl
-          · split at hm
-            · simp at hm
-            · simp at hm; subst hm
-              refine js_resolve_fmt h _ ?_ _ r hr
-              intro x hx
-              have hx' := printed_unwrapAll_sub api t.ty x hx
-              have hu : u ∈ api.unions := List.mem_flatMap.mpr ⟨n, hn, mem_ns_unions.mpr hdt⟩
-              rcases unionAllTags_mem api _ u t ht with h' | ⟨u', hu', h'⟩
-              · exact userTypes_ok_tag wf hu h' x hx'
-              · exact userTypes_ok_tag wf hu' h' x hx'
-          · simp [TExpr.refs] at hr
-        · simp [TExpr.refs, bare] at hr
-          subst hr
-          exact ⟨rfl, Or.inl (by decide)⟩
+      simp only [jsUnionDecl, Except.ok.injEq] at hEq
+      subst hEq
+      simp only [Decl.refs, List.mem_append, List.mem_flatMap, List.mem_filterMap] at hr
+      rcases hr with (hr | ⟨m, hm, hr⟩) | hr
+      · simp at hr
+      · rcases hm with ⟨t, ht, hm⟩ | hm
+        · split at hm
+          · simp at hm
+          · simp at hm; subst hm
+            refine js_resolve_fmt h _ ?_ _ r hr
+            intro x hx
+            have hx' := printed_unwrapAll_sub api t.ty x hx
+            have hu : u ∈ api.unions := List.mem_flatMap.mpr ⟨n, hn, mem_ns_unions.mpr hdt⟩
+            rcases unionAllTags_mem api _ u t ht with h' | ⟨u', hu', h'⟩
+            · exact userTypes_ok_tag wf hu h' x hx'
+            · exact userTypes_ok_tag wf hu' h' x hx'
+        · -- the `.tag` property (absent for a union without tags) mentions no name
+          split at hm
+          · simp at hm
+          · simp at hm; subst hm; simp [TExpr.refs] at hr
+      · simp [TExpr.refs, bare] at hr
+        subst hr
+        exact ⟨rfl, Or.inl (by decide)⟩
 
 
 /-! ## tsd_types: the names declared in a namespace body are `tsdNames` -/
